@@ -339,6 +339,13 @@ class Effects:
         arg_tys = t.get("arg_tys", [])
         m = self.model.lookup(t) if c else None
         ws = self.crate.fns.get(cpath) if cpath else None
+        if m is not None and c is not None and cpath is not None and \
+                strip_generics(cpath).endswith("::truncate") and len(t["args"]) == 2:
+            k = op_const(t["args"][1])
+            if k is not None and k.get("int") == 0 and self.tracked_in(fa, arg_aps[0]):
+                # truncate(0) clears
+                kind0 = "write" if "[]" in arg_aps[0].proj else "kill"
+                return [Eff(kind0, arg_aps[0], site)]
         if m is not None:
             effs = m.get("eff", "none")
             if isinstance(effs, str):
@@ -522,7 +529,7 @@ class Effects:
                     kout[b] = new_out
                     changed = True
         # loop idiom: elementwise kills
-        elem_kills = self.elementwise_kills(fa, evs)
+        elem_kills = self.elementwise_kills(fa, evs) + self.foreach_kills(fa)
         # exposed uses and ordered may list
         for b in order:
             if kin[b] is ALL:
@@ -598,6 +605,49 @@ class Effects:
                 continue
             coll = AP(ap.root, ap.proj[:-1])
             out.append((coll, {hb}))
+        return out
+
+    def foreach_kills(self, fa):
+        """`X.iter_mut().for_each(Vec::clear)` / `.for_each(|v| v.clear())`: every element killed."""
+        out = []
+        for b, t in fa.calls():
+            ps = [strip_generics(x) for x in callee_paths(t)]
+            if not any(x.endswith("Iterator::for_each") for x in ps) or len(t["args"]) != 2:
+                continue
+            it = self.ap_operand(fa, t["args"][0])
+            if it is None:
+                continue
+            # only iter_mut over the collection itself (no adaptors that drop elements)
+            ok_chain = True
+            pl = op_place(t["args"][0])
+            cur = pl["l"] if pl else None
+            for _ in range(8):
+                d = fa.single_def(cur) if cur is not None else None
+                if d is None:
+                    break
+                if d[2] == "call":
+                    nm = strip_generics(callee_paths(d[3]).pop()).rsplit("::", 1)[-1]
+                    if nm not in ("iter_mut", "deref_mut", "into_iter", "as_mut_slice"):
+                        ok_chain = False
+                    p0 = op_place(d[3]["args"][0]) if d[3]["args"] else None
+                else:
+                    rv = d[3]
+                    p0 = op_place(rv["op"]) if rv["k"] == "use" else rv["place"] if rv["k"] == "ref" else None
+                cur = p0["l"] if p0 and not [e for e in p0["p"] if e != "*"] else None
+            if not ok_chain:
+                continue
+            kills = False
+            k = op_const(t["args"][1])
+            if k is not None and "fn" in k:
+                fp = strip_generics((k["fn"].get("resolved") or k["fn"])["path"])
+                kills = fp.endswith("Vec::clear") or fp.endswith("String::clear")
+            else:
+                cl = self.closure_of_operand(fa, t["args"][1])
+                if cl is not None:
+                    s2 = self.summary(cl[0])
+                    kills = any(a == AP(("arg", 2)) for a in s2.must_kill)
+            if kills:
+                out.append((it, {b}))
         return out
 
     def next_call_of(self, fa, local, depth=0):
